@@ -21,6 +21,7 @@ type Val struct {
 // Closure is a function literal or a named function captured as a value.
 type Closure struct {
 	Lit   *ast.FuncLit
+	Obj   *types.Func // a named function used as a value (library functions have no FuncInfo)
 	Func  *FuncInfo
 	Env   *Env
 	Recv  *Val
@@ -37,6 +38,8 @@ type State struct {
 	ghost map[string]Val
 	calls []string // names of the functions called so far on this path
 	defers []deferredCall // deferred calls registered on this path (innermost frame last)
+	skw   map[string]string // last Skolem function of each witness-mode exists (by source position)
+	pendingHavoc map[string]bool // field names written by an enclosing/preceding loop whose heap map was not touched yet
 }
 
 func newState() *State {
@@ -61,6 +64,18 @@ func (s *State) clone() *State {
 	}
 	for k, v := range s.ghost {
 		n.ghost[k] = v
+	}
+	if len(s.skw) > 0 {
+		n.skw = make(map[string]string, len(s.skw))
+		for k, v := range s.skw {
+			n.skw[k] = v
+		}
+	}
+	if len(s.pendingHavoc) > 0 {
+		n.pendingHavoc = make(map[string]bool, len(s.pendingHavoc))
+		for k, v := range s.pendingHavoc {
+			n.pendingHavoc[k] = v
+		}
 	}
 	return n
 }
@@ -151,6 +166,7 @@ type Env struct {
 	oldMode  bool
 	callerSide bool
 	loopPre  *State   // state at the entry of the innermost loop (for atentry(...))
+	ghostBody bool    // executing the body of a ghost function or a callee inlined from a specification
 	qvars    []string // "(name sort)" of enclosing quantifier variables
 	qnames   []string
 	visitedSet string
@@ -164,6 +180,8 @@ type pkgRef struct {
 
 // Ctx is the verification context of one function under contract.
 type Ctx struct {
+	groupOf  map[string]string
+	curGroup string
 	e      *Engine
 	fi     *FuncInfo
 	decls  *Decls
@@ -242,12 +260,42 @@ func (c *Ctx) addObl(st *State, name, kind, goal, where, clause string, props []
 		// the same program point reached from several incoming paths
 		name = fmt.Sprintf("%s~%d", name, n)
 	}
-	o := &Obligation{Name: c.fi.Key + "/" + name, Kind: kind, Func: c.fi.Key, Assume: untag(st.pc), Goal: goal,
+	o := &Obligation{Name: c.fi.Key + "/" + name, Kind: kind, Func: c.fi.Key, Assume: c.visible(untag(st.pc)), Goal: goal,
 		Decls: c.decls, Where: where, Clause: clause, Props: props}
 	if props == nil {
 		o.Props = c.props
 	}
 	c.obls = append(c.obls, o)
+}
+
+// Clause groups keep queries small: an assumption that stems from a clause of group G is
+// visible only to obligations of group G; ungrouped assumptions are visible to all, and
+// ungrouped obligations see only ungrouped assumptions (dropping assumptions is always sound).
+func (c *Ctx) assumeGrouped(st *State, term, group string) {
+	st.assume(term)
+	if group != "" {
+		if c.groupOf == nil {
+			c.groupOf = map[string]string{}
+		}
+		c.groupOf[term] = group
+		for _, u := range untag([]string{term}) {
+			c.groupOf[u] = group
+		}
+	}
+}
+
+func (c *Ctx) visible(pc []string) []string {
+	if len(c.groupOf) == 0 {
+		return pc
+	}
+	out := make([]string, 0, len(pc))
+	for _, a := range pc {
+		if g := c.groupOf[a]; g != "" && g != c.curGroup {
+			continue
+		}
+		out = append(out, a)
+	}
+	return out
 }
 
 func sortedKeys[V any](m map[string]V) []string {
@@ -347,11 +395,35 @@ func app(f string, args ...string) string {
 		}
 	}
 	if f == "select" && len(args) == 2 && strings.HasPrefix(args[0], "(store ") {
-		if parts := splitArgs(args[0]); len(parts) == 4 && parts[2] == args[1] {
-			return parts[3]
+		if parts := splitArgs(args[0]); len(parts) == 4 {
+			if parts[2] == args[1] {
+				return parts[3]
+			}
+			if isNumeral(parts[2]) && isNumeral(args[1]) {
+				return app("select", parts[1], args[1])
+			}
+			// read over write, pushed eagerly: the result mentions the array before the update, so
+			// that quantified facts about the old state find their trigger terms
+			if rowEager && strings.Count(args[0], "(store ") <= 3 {
+				return ite(eq(args[1], parts[2]), parts[3], app("select", parts[1], args[1]))
+			}
 		}
 	}
 	return "(" + f + " " + strings.Join(args, " ") + ")"
+}
+
+var rowEager = true
+
+func isNumeral(s string) bool {
+	if s == "" {
+		return false
+	}
+	for i := 0; i < len(s); i++ {
+		if s[i] < '0' || s[i] > '9' {
+			return false
+		}
+	}
+	return true
 }
 
 // splitArgs splits "(f a b c)" into [f a b c] at bracket depth 1.
